@@ -96,7 +96,7 @@ func buildHookOverlay(prog *ssa.Program, cfg *HarnessConfig, under *packages.Pac
 		}
 		fset := prog.Fset
 		fname := fset.Position(decl.Pos()).Filename
-		if strings.Contains(fname, "/pkg/mod/") || generic {
+		if strings.Contains(fname, "/pkg/mod/") || generic || !strings.HasPrefix(fname, repoRoot+"/") {
 			// the go tool refuses overlays beneath GOMODCACHE, and a hook variable cannot be typed for a generic callee:
 			// hook the call sites (of this instantiation) in the package under test instead.
 			//   f(args)  ->  verifHookSite_f(f)(args)      with a generic selector that prefers the hook when one is set
